@@ -6,7 +6,10 @@ import (
 	"strings"
 	"time"
 
+	"net/url"
+
 	"verif/harness/core"
+	"verif/harness/env"
 	"verif/harness/verify"
 )
 
@@ -21,6 +24,30 @@ func c03CaseWL(r *core.Run, wl string, idx int, rng *rand.Rand) {
 		sc.S.ACS = "" // reply returned in the HTTP body
 	}
 	e := sc.build()
+	// sometimes another user's callback fails late (after its data was loaded) right before, on the same provider
+	if idx%6 == 2 {
+		prev := randScenario(rng, canary+"p", true)
+		prev.Host = sc.Host
+		prev.install(e.W)
+		failTag := fmt.Sprintf("failfirst-%d", idx)
+		kind := rng.Intn(3)
+		e.W.Plan = func(tag, op string, occ int) string {
+			if tag != failTag {
+				return ""
+			}
+			if (kind == 0 && op == "GetResponseSigningKey") || (kind == 1 && op == "GetResponseSigningKey" && occ >= 1) {
+				return "error"
+			}
+			if kind == 2 && op == "GetResponseSigningKey" {
+				return "key_without_certificate"
+			}
+			return ""
+		}
+		pc := e.Do(env.Req{Path: env.PathLogin, Query: "id=" + url.QueryEscape(prev.S.ID), Host: sc.Host, Tag: failTag})
+		if !pc.D.Success() {
+			r.Count("preceded_by_failed_callback", 1)
+		}
+	}
 	call := sc.callback(e)
 	class := fmt.Sprintf("%s|layout=%q|host=%v|acs_empty=%v", sc.S.Binding[strings.LastIndex(sc.S.Binding, ":")+1:], sc.Opts.TimeFormat, sc.Host != "", sc.S.ACS == "")
 	desc := map[string]any{"stored_request": sc.S, "user": sc.U, "audience": sc.Audience, "host": sc.Host, "opts": map[string]any{"time_format": sc.Opts.TimeFormat, "host_path": sc.Opts.HostPath, "sig_alg": sc.Opts.SigAlg}}
@@ -89,6 +116,7 @@ func init() {
 			r.Require("delivery_form", 50)
 			r.Require("delivery_redirect", 50)
 			r.Require("delivery_xml-body", 5)
+			r.Require("preceded_by_failed_callback", 50)
 			zone := func(name string, off int) func() {
 				return func() {
 					if off == 0 {
